@@ -74,7 +74,10 @@ def gen(rng, flavour):
                            if flavour == 'c03' else rng.choice([None, True, True, False])})
             foreign.append(fa)
     cfg = {'T': T, 'fdur': rng.choice([0, T / 4, 2 * T]), 'fails': fails, 'debug': bool(foreign) and rng.random() < 0.5,
-           'deco': rng.random() < 0.3}
+           'deco': rng.random() < 0.3,
+           # what a failing function / producer raises: an ordinary exception, or a CancelledError of its own
+           # (e.g. an inner task somebody else cancelled) - a failure like any other for the buffer
+           'fail_exc': rng.choice(['harness', 'harness', 'cancelled'])}
     shutdown = None
     if flavour == 'c07' and rng.random() < 0.45:
         horizon = (acts[-1]['t'] if acts else 0) + 2 * T
@@ -87,7 +90,7 @@ class BufferHarness:
     def __init__(self, A):
         self.A = A
 
-    def run(self, prog, strategy, flavour, lines=True):
+    def run(self, prog, strategy, flavour, lines=True, delays=None):
         A = self.A
         cfg = prog['cfg']
         T = cfg['T']
@@ -103,6 +106,9 @@ class BufferHarness:
 
             ninv = [0]
 
+            def make_exc(tag):
+                return aio.CancelledError(tag) if cfg.get('fail_exc') == 'cancelled' else HarnessError(tag)
+
             async def func(args):
                 ninv[0] += 1
                 n = ninv[0]
@@ -111,12 +117,13 @@ class BufferHarness:
                     if cfg['fdur']:
                         await aio.sleep(cfg['fdur'])
                     if (n - 1) in cfg['fails']:
-                        raise HarnessError(n)
+                        emit('fend', n, 'raise')
+                        raise make_exc(n)
                 except HarnessError:
-                    emit('fend', n, 'raise')
                     raise
                 except BaseException:
-                    emit('fend', n, 'cancel')
+                    if not any(e[0] == 'fend' and e[1] == n for e in log[-3:]):
+                        emit('fend', n, 'cancel')
                     raise
                 emit('fend', n, 'ok')
 
@@ -134,7 +141,7 @@ class BufferHarness:
                             if d:
                                 await aio.sleep(d)
                             if fail is not None:
-                                raise HarnessError('producer')
+                                raise make_exc('producer')
                             emit('produced', sid, ids_[0])
                             return ids_[0]
                         finally:
@@ -151,11 +158,11 @@ class BufferHarness:
                                 if d:
                                     simrt.sim_sleep(d)          # blocks the helper thread, not the loop
                                 if fail == j:
-                                    raise HarnessError('producer')
+                                    raise make_exc('producer')
                                 emit('produced', sid, x)
                                 yield x
                             if fail == len(ids_):
-                                raise HarnessError('producer')
+                                raise make_exc('producer')
                         finally:
                             emit('prod_end', sid)
                     got = tuple(ids_[:fail]) if fail is not None else tuple(ids_)
@@ -168,11 +175,11 @@ class BufferHarness:
                                 if d:
                                     await aio.sleep(d)
                                 if fail == j:
-                                    raise HarnessError('producer')
+                                    raise make_exc('producer')
                                 emit('produced', sid, x)
                                 yield x
                             if fail == len(ids_):
-                                raise HarnessError('producer')
+                                raise make_exc('producer')
                         finally:
                             emit('prod_end', sid)
                     got = tuple(ids_[:fail]) if fail is not None else tuple(ids_)
@@ -268,7 +275,11 @@ class BufferHarness:
             for fi, fa in enumerate(prog['foreign']):
                 s.spawn(foreign_thread(fi, fa), f'F{fi}')
 
-        return simrt.execute(main, strategy, max_steps=120000, lines=lines, watchdog=60.0)
+        def pre(s):
+            if delays:
+                s.line_delays = [dict(d) for d in delays]
+
+        return simrt.execute(main, strategy, max_steps=120000, lines=lines, watchdog=60.0, pre=pre)
 
 
 # ---------------------------------------------------------------------------
@@ -306,6 +317,12 @@ def judge_c03(v: BView, res: CaseResult, verdict):
             if not a[2] <= b[2]:
                 res.violate('C03:retry-dropped', 'arguments of a failed call were not all offered to the next call',
                             failed=sorted(map(repr, a[2])), next=sorted(map(repr, b[2])))
+    if verdict == 'deadlock':
+        # every thread is blocked and no timer is pending: nothing can deliver what is still missing
+        lost = produced - set(delivered)
+        if lost:
+            res.violate('C03:lost-forever', 'execution came to a permanent standstill with submitted arguments undelivered',
+                        lost=sorted(map(repr, lost)))
     if v.quiesced and verdict is None:
         lost = produced - set(delivered)
         if lost:
@@ -358,7 +375,7 @@ def judge_c07(v: BView, res: CaseResult, r, prog):
                 res.violate('C07:barrier', 'wait() returned before everything submitted earlier was delivered',
                             waiter=e[1], missing=sorted(map(repr, before - done)))
     # every wait returns
-    if r.verdict in ('deadlock', 'stepbound'):
+    if r.verdict in ('deadlock', 'stepbound', 'timebound'):
         if v.shutdown_at is None:
             open_w = [w for w in wcalls if not any(e[0] == 'wret' and e[1] == w for e in log)]
             res.violate('C07:wait-never-returns', f'{r.verdict} with wait() pending', waits=open_w, blocked=r.blocked)
@@ -539,7 +556,21 @@ class BufferCheck(Check):
                                        seed=rng.randrange(1 << 30))
         else:
             strat = simrt.Strategy('random', 0.3, seed=rng.randrange(1 << 30))
-        r = self.h.run(prog, strat, self.flavour)
+        delays = None
+        if prog['foreign'] and rng.random() < 0.4:
+            # a long preemption of a foreign thread at one source line of the hand-off path (or of the loop
+            # thread inside the processing round): timers on the other side can fire meanwhile
+            T = prog['cfg']['T']
+            if rng.random() < 0.75:
+                delays = [{'thread': f'F{rng.randrange(len(prog["foreign"]))}',
+                           'qual': rng.choice(['BufferAsyncCalls._put', 'BufferAsyncCalls._put', 'BufferAsyncCalls.',
+                                               'ensure_aw', 'run_aw_threadsafe']),
+                           'nth': rng.randint(1, 9), 'd': rng.choice([T / 2, T + T / 16, 2 * T, 4 * T])}]
+            else:
+                delays = [{'thread': 'L', 'qual': rng.choice(['BufferAsyncCalls._process_queue', 'BufferAsyncCalls._run_func',
+                                                              'BufferAsyncCalls.wait']),
+                           'nth': rng.randint(1, 40), 'd': rng.choice([T / 2, T + T / 16, 2 * T])}]
+        r = self.h.run(prog, strat, self.flavour, delays=delays)
         res = CaseResult()
         res.sig = r.signature
         res.cov = {k: c for k, c in r.sched.line_cov.items() if k[0].startswith(self.anchors)}
@@ -555,13 +586,15 @@ class BufferCheck(Check):
             return res
         st = res.stats
         st['executions'] += 1
+        if r.sched.delays_fired:
+            st['long_delay_injected'] += 1
         v = BView(r.log)
         st['loop_exception_handler_events'] += sum(1 for e in r.log if e[0] == 'loop_exc')
         if prog['cfg']['debug']:
             st['debug_mode_executions'] += 1
         if self.pid == 'C03':
             judge_c03(v, res, r.verdict)
-            if r.verdict in ('deadlock', 'stepbound'):
+            if r.verdict in ('deadlock', 'stepbound', 'timebound'):
                 st['nonterminating_left_to_C07'] += 1
             nsub = len(v.subs)
             prefix = any(e[2] in ('mapiter', 'amap') and a.get('fail') and len(e[4]) > 0
